@@ -165,7 +165,10 @@ def judge_parentheses(chk, gen, ob, cases, stats, per_sig):
         q = ob.ctx["where"] % T.render_min(c["e"], only={(T.key(n), j) for n, j in keep})
         culprits[T.key(c["e"])] = [(n, j, q) for n, j in keep]
     for c in bad:
-        cl = lambda k: k[0] if k[0] in ("and", "or", "not") else "predicate"
+        def cl(k):
+            while k[0] == "not":        # NOT NOT x: what matters is what the chain of NOTs finally applies to
+                k = k[1]
+            return k[0] if k[0] in ("and", "or") else "predicate"
         sigs = collections.OrderedDict()
         for n, j, q in culprits[T.key(c["e"])]:
             sigs.setdefault("%s:%s:[%s]:answer_differs_from_fully_parenthesised" % (ctx, T.family(n), cl(n[j])), q)
